@@ -14,8 +14,9 @@ from vlib import VERIF
 class Stage:
     def __init__(self, name, harness, variant="asan", quick=1000, thorough=20000, args=(), sources=None,
                  link_lib=True, common=True, env=None, per_worker_env=None, nworkers=None, need_snapshots=False,
-                 extra_flags=(), post=None):
+                 extra_flags=(), post=None, tools=False):
         self.name, self.harness, self.variant = name, harness, variant
+        self.tools = tools
         self.quick, self.thorough = quick, thorough
         self.args, self.sources = list(args), sources
         self.link_lib, self.common = link_lib, common
@@ -25,6 +26,9 @@ class Stage:
         self.post = post
 
     def build(self):
+        if self.tools:      # command-line tools of the repository, built with the same sanitizer flags
+            self.env = dict(self.env or {})
+            self.env["VERIF_TOOLS_DIR"] = vlib.build_tools(self.variant)
         srcs = None
         if self.sources:
             srcs = [os.path.join(VERIF, "harness", s) for s in self.sources]
@@ -632,4 +636,27 @@ PROPS["C18"] = Prop(
                                  "component selections follow the repository's test drivers; the host's own x86 back end is never combined with a foreign Linux snapshot"],
     technique="runtime monitor: fault injection on hard-link clones of the bundled snapshots + WF oracle, determinism / view / XML round-trip comparisons under gcc ASan+UBSan+LSan",
     level_text="exploration: sampled removal sets over all bundled snapshots x component selections x configurations; four consistency oracles per loaded clone",
+)
+
+
+PROPS["C20"] = Prop(
+    "C20",
+    [Stage("asan", "c20_tools", "asan", quick=3000, thorough=60000, tools=True)],
+    rule=("hwloc-calc, lstopo-no-graphics, hwloc-diff, hwloc-patch and hwloc-distrib are compiled from /repo/utils with ASan+UBSan and run as real "
+          "processes on generated synthetic strings and corpus XML files; the harness loads the same input with the library (the tools' documented "
+          "configuration: everything kept, IMPORT_SUPPORT) and computes every expected value from the generated expression tree. 5/10 cases "
+          "hwloc-calc: 1-5 terms (type:index chains with X, X-Y, X-, X:N wrap-around, all/odd/even, nested relative indexes; all/root; hex masks) "
+          "combined with '', ~, x, ^, and one output mode: set in hwloc/list/taskset format (exact string of the library formatter), -I and "
+          "--po -I (index lists), -N (count, and == number of -I entries), --single, --largest and -H (output fed back to hwloc-calc must give "
+          "the set / the union of intersecting objects). 2/10 lstopo: XML output byte-equal to the library export of its reload, reload "
+          "canonical-equal to the input loaded by the library, synthetic output == hwloc_topology_export_synthetic and a fixpoint. 1/10 "
+          "hwloc-diff A B + hwloc-patch A == B bytes for 1-4 representable edits. 1/10 hwloc-distrib N: N parsable, non-empty sets inside "
+          "the root, union == root, disjoint when N <= #PUs, --single. 1/10 malformed command lines must exit non-zero; any signal, timeout or "
+          "sanitizer report of a tool is a violation. distinct+non-trivial = classes 1-4 (calc with >= 2 terms or nesting, lstopo, diff/patch, distrib)"),
+    nontrivial_classes=[1, 2, 3, 4], floor=60,
+    assumptions=COMMON_ASSUME + ["only grammar documented in hwloc(7) / hwloc-calc(1) is generated; indexes out of range are not generated (their handling is not specified)",
+                                 "Group levels and types present at several depths are not named in expressions (they need depth attributes)",
+                                 "tool memory leaks at exit are not judged (detect_leaks=0 for the tools)"],
+    technique="runtime monitor: sanitizer-built tools run as processes, outputs compared with values computed through the library API from the generated command-line AST",
+    level_text="exploration: generated command lines over the documented grammars on generated topologies; equivalence with the library and between options",
 )
